@@ -40,7 +40,7 @@ type c17Pub struct {
 	Node  int    `json:"n"`
 	Topic string `json:"t"`
 	QoS   byte   `json:"q"`
-	Kind  string `json:"k"` // plain | retain | clear | will (published as the will of a client that dies on the node)
+	Kind  string `json:"k"`               // plain | retain | clear | will (published as the will of a client that dies on the node)
 	Props int    `json:"props,omitempty"` // application properties, bit set as in C01 (1 payload-format, 2 content-type, 4 response-topic, 16 user)
 }
 
@@ -60,6 +60,7 @@ type c17Scen struct {
 }
 
 var c17Filters = []string{"f/a", "f/a", "f/b", "f/+", "f/#", "#", "$f/#"}
+
 // "f" is the parent level of the filter "f/#" (which matches it, MQTT 4.7.1.2) but not of "f/+"
 var c17Topics = []string{"f/a", "f/a", "f/a", "f/b", "x", "$f/x", "f", "f"}
 
@@ -83,7 +84,7 @@ func genC17Pubs(t *rapid.T, nodes int, lo, hi int) []c17Pub {
 	var out []c17Pub
 	for i := 0; i < n; i++ {
 		out = append(out, c17Pub{Node: rapid.IntRange(0, nodes-1).Draw(t, "pnode"), Topic: rapid.SampledFrom(c17Topics).Draw(t, "topic"),
-			QoS:  byte(rapid.SampledFrom([]int{0, 1, 1, 2}).Draw(t, "pqos")),
+			QoS:   byte(rapid.SampledFrom([]int{0, 1, 1, 2}).Draw(t, "pqos")),
 			Kind:  rapid.SampledFrom([]string{"plain", "plain", "plain", "plain", "retain", "retain", "clear", "will"}).Draw(t, "kind"),
 			Props: rapid.SampledFrom([]int{0, 0, 2, 7, 16, 23}).Draw(t, "props")})
 	}
